@@ -92,7 +92,7 @@ func runC32Counting(c *Ctx) {
 	okInit := false
 	Instrs(fn, func(in ssa.Instruction) {
 		if st, ok := in.(*ssa.Store); ok && strings.HasSuffix(u.Describe(st.Addr), "expected") {
-			if al, isA := st.Addr.(*ssa.Alloc); isA && al.Comment == "expected" && u.Describe(st.Val) == "numChunks" {
+			if al, isA := st.Addr.(*ssa.Alloc); isA && u.VarName(al) == "expected" &&u.Describe(st.Val) == "numChunks" {
 				okInit = true
 			}
 		}
